@@ -177,6 +177,14 @@ requests:
   - name: e
     method: GET
     uri: '/e/{{index .source.shop.users 5}}'
+  - name: p
+    method: GET
+    uri: '/p/{{.request.a.postprocessor.token'
+  - name: q
+    method: POST
+    uri: /q
+    headers: {X-Bad: '{{nosuchfunction 1}}'}
+    body: 'x'
   - name: d
     method: POST
     uri: /d
@@ -274,7 +282,7 @@ func (c Cell) interpret(n *int, next *int) wantShot {
 	var w wantShot
 	token := "<no value>"
 	for _, st := range expand(c.Program) {
-		if st.name == "e" {
+		if st.name == "e" || st.name == "p" || st.name == "q" {
 			// the URI template fails while it is rendered (after part of it has been produced): the step
 			// fails before anything is sent, the shot stops, nothing of it may reach later renderings
 			w.samples = append(w.samples, Sample{Tag: "s1." + st.name, Proto: -1})
@@ -754,7 +762,9 @@ func allCells(thorough bool) []Cell {
 			out = append(out, Cell{Mode: "exec", Program: p, MinWait: mw, Instances: 1, Shots: 2})
 		}
 	}
-	for _, p := range [][]string{{"e"}, {"a", "e"}, {"e", "a"}, {"a", "e", "b"}, {"b", "e"}, {"b(2)", "e", "c"}, {"c", "e"}, {"a(1,100)", "e"}} {
+	for _, p := range [][]string{{"e"}, {"a", "e"}, {"e", "a"}, {"a", "e", "b"}, {"b", "e"}, {"b(2)", "e", "c"}, {"c", "e"}, {"a(1,100)", "e"},
+		// templates that do not even parse (an unclosed action, an unknown function): the step fails the same way in every shot
+		{"p"}, {"a", "p"}, {"a", "p", "b"}, {"c", "p(2)"}, {"q"}, {"a", "q", "b"}, {"b", "q"}, {"p", "q"}} {
 		for _, mw := range []int{0, 30} {
 			out = append(out, Cell{Mode: "exec", Program: p, MinWait: mw, Instances: 1, Shots: 3})
 		}
